@@ -38,9 +38,18 @@ theorem tie_ws_gate :
                               "(!c.transport.IsSecure()&&!c.config.Insecure)"] ∧
     startTlsConds.take 3 = ["(s.err!=nil)", "!s.transport.DoesStartTLS()", "!o.Insecure"] := by decide
 
+/-- After a successful handshake `StartTLS` switches EVERYTHING to the TLS connection: `t.conn` (which `Ping`
+writes the keepalive to) and `t.readWriter` (a NEW stream logger around the TLS connection, which the decoder is
+rebuilt on). A keepalive or a logged stream that stayed on the TCP socket would be clear text under TLS. -/
+theorem tie_starttls_switches_everything :
+    startTLSConn = ["tlsConn.Handshake", "t.conn=tlsConn", "newStreamLogger"] ∧
+    startTLSReadWriter = ["tlsConn.Handshake", "t.readWriter=newStreamLogger(tlsConn,t.logFile)"] ∧
+    xmppPingWrites.head? = some "t.conn.Write" := by decide
+
 end XmppVerif.Tie.Transport
 #print axioms XmppVerif.Tie.Transport.tie_xmpp_close
 #print axioms XmppVerif.Tie.Transport.tie_ws_close
 #print axioms XmppVerif.Tie.Transport.tie_ws_reader
 #print axioms XmppVerif.Tie.Transport.tie_ws_read
 #print axioms XmppVerif.Tie.Transport.tie_ws_gate
+#print axioms XmppVerif.Tie.Transport.tie_starttls_switches_everything
